@@ -209,9 +209,10 @@ package keeper
 //@     && $trFromGenesisPool[b] == old($trFromGenesisPool[b]) && $trFromGenesisAccount[b] == old($trFromGenesisAccount[b])
 //@ pred tracesUnchanged() = $trFound == old($trFound) && $trGenesis == old($trGenesis) && $trFromGenesisPool == old($trFromGenesisPool)
 //@     && $trFromGenesisAccount == old($trFromGenesisAccount)
+//@ // verified against the contract of GetParams (the codec step is the assumption, not this accessor)
 //@ func (k Keeper) Denom(ctx) (res)
-//@   trusted
 //@   ensures res == $vestingDenom
+//@   prop C05 C18 C20
 //@
 //@ // ---- C08 / C09: new vesting accounts ----
 //@ // every account record other than `a` is as before
